@@ -12,6 +12,7 @@
    and returns exactly the bytes behind the head -- the statements C01/C02 prove for Model/Head.v. *)
 From SV Require Import Base.Bytes Base.BytesP Model.Headers Proofs.HeadersP Model.RustStr
      Proofs.RustStrP Model.Request Spec.Framing Proofs.RequestP Proofs.StreamP Proofs.FramingP.
+From SV Require Generated.SourceParams Tie.HeadTie.
 From SV Require Import Base.SrcAst Generated.SourceParams Tie.ContentTypeTie Tie.RequestTie.
 From SV Require Model.Head Spec.Rfc7230.
 From SV Require Import Base.IO Model.PipelineInst Proofs.PipelineInstP.
@@ -412,6 +413,23 @@ Proof. exact body_table_tie. Qed.
 Theorem c03_request_translation_complete : src_problems_request = 0%nat.
 Proof. exact request_translated. Qed.
 
+(* C03.src-head  Head::try_read (src/head.rs) after read_head_bytes, as TRANSLATED statement by statement ON THIS RUN
+   (props/srcparams.py -> Generated/SourceParams.v: src_try_read -- the split at LF with trim_trailing_cr, the first
+   line as request line or MissingRequestLine, parse_request_line, the loop that parses and pushes EVERY remaining
+   line, the value returned), interpreted by Tie/HeadTie.v, is the head parser the theorems above are about, for every
+   head and every URL parser; the field-value byte test of parse_header_line, the first character demanded of the
+   target and the protocol text are the model's *)
+Theorem c03_try_read_is_the_source :
+  forall url_parse hb, Tie.HeadTie.eval_try_read url_parse hb = Model.Head.parse_head url_parse hb.
+Proof. exact Tie.HeadTie.try_read_tie. Qed.
+Theorem c03_line_parser_literals_are_the_source :
+  (forall b, Base.Bytes.is_fv_byte b =
+             (N.eqb b Generated.SourceParams.src_fv_tab || Base.Bytes.in_range Generated.SourceParams.src_fv_lo Generated.SourceParams.src_fv_hi b)%bool) /\
+  Generated.SourceParams.src_target_first = [47%N] /\ Generated.SourceParams.src_protocol = Model.Head.http11.
+Proof. exact (conj Tie.HeadTie.fv_byte_tie (conj Tie.HeadTie.target_first_tie Tie.HeadTie.protocol_tie)). Qed.
+Theorem c03_try_read_translation_complete : Generated.SourceParams.src_problems_try_read = 0%nat.
+Proof. exact Tie.HeadTie.try_read_translated. Qed.
+
 Print Assumptions c03_framing_agrees.
 Print Assumptions c03_request_is_function_of_head.
 Print Assumptions c03_framing_never_ignored.
@@ -450,3 +468,6 @@ Print Assumptions c03_source_names.
 Print Assumptions c03_source_coding_table.
 Print Assumptions c03_source_body_table.
 Print Assumptions c03_request_translation_complete.
+Print Assumptions c03_try_read_is_the_source.
+Print Assumptions c03_line_parser_literals_are_the_source.
+Print Assumptions c03_try_read_translation_complete.
